@@ -937,11 +937,11 @@ Proof.
                       (mark_nodes fx (sv_tree sv3) (s_subs ss) s cleanup_delta))).
   { apply Hrem.
     - cbn. lia.
-    - now rewrite <- Hsub3.
+    - rewrite <- Hsub3. apply Hw3.
     - intros n Hn. cbn [count_matching all_entries empty_matcher m_groups flat_map filter length]. rewrite Hsub3.
       destruct (matches_node (s_subs ss) (n_path n) None 0) eqn:Em.
       + rewrite adj_clear; auto. rewrite <- Hsub3. apply (count_bound B); auto.
-      + rewrite count_zero; auto. now rewrite <- Hsub3. }
+      + rewrite count_zero; auto. rewrite <- Hsub3. apply Hw3. }
   pose proof (inv_drop B (session_dir ss) _ s (set_subs ss3 empty_matcher) Irem) as Hdrop.
   assert (Hfin : inv_x B []
      (mkServer (mark_nodes fx (sv_tree sv3) (s_subs ss) s cleanup_delta)
@@ -954,13 +954,13 @@ Proof.
       rewrite get_session_upd by reflexivity. now rewrite N.eqb_refl, Hss3.
     - intros p. reflexivity.
     - exact Hdir3.
-    - cbn [sv_tree set_tree]. rewrite mark_nodes_spec; [|apply (inv_tree _ _ _ I3)|now rewrite <- Hsub3].
+    - cbn [sv_tree set_tree]. rewrite mark_nodes_spec; [|apply (inv_tree _ _ _ I3)|rewrite <- Hsub3; apply Hw3].
       rewrite has_node_map; [now rewrite Ht3|].
       intros n. destruct (matches_node (s_subs ss) (n_path n) None 0); reflexivity. }
   destruct (sv_tree sv3) as [|n0 t0] eqn:Et3; [|exact Hfin].
   (* an emptied tree: nothing to unmark *)
   assert (Hm : mark_nodes fx [] (s_subs ss) s cleanup_delta = []).
-  { rewrite mark_nodes_spec; [reflexivity| |now rewrite <- Hsub3].
+  { rewrite mark_nodes_spec; [reflexivity| |rewrite <- Hsub3; apply Hw3].
     split; [constructor|split; [intros n []|intros n q r []]]. }
   now rewrite Hm in Hfin.
 Qed.
